@@ -105,14 +105,15 @@ Example C17_ex_rejected :
 Proof. vm_compute. repeat split. Qed.
 
 (* an observed log, read by the model: the response of connection 1 is read by
-   its client only after close() has returned *)
+   its client only after close() has returned; the departure of client 2 is
+   placed where the server can no longer be unaware of it *)
 Example C17_ex_observed :
   option_map snd (replay_obs Detached
      [OConn 1; OConn 2; OEntered 1; OEntered 2; OClientGone 2; OCloseCalled; OCompleted 2; OCompleted 1;
       OWaiter 1 true; OCloseReturned true; ORespRead 1 true; OConnectAfter 0])
-  = Some [Accept 1; Accept 2; ReqBegin 1; Enter 1; ReqBegin 2; Enter 2; ClientGone 2; Signal;
-          Complete 2; Complete 1; StopAccept; Deliver 1; ConnsDrained; WaitgroupDone; Publish;
-          Release 1 true; Release 0 true].
+  = Some [Accept 1; Accept 2; ReqBegin 1; Enter 1; ReqBegin 2; Enter 2; Signal;
+          Complete 2; ClientGone 2; Complete 1; StopAccept; Deliver 1; ConnsDrained; WaitgroupDone;
+          Publish; Release 1 true; Release 0 true].
 Proof. vm_compute. reflexivity. Qed.
 
 Print Assumptions C17_started_requests_answered.
